@@ -51,6 +51,12 @@ impl WindowCtx {
         let mut tags = vec![];
         match op {
             Op::Mv { from, to } => {
+                // a rename target that is renamed again: the debouncer folds the chain into one
+                // rename (x -> y -> x becomes "x renamed to x"), whatever the first rename overwrote
+                // is never reported as removed
+                if self.rename_targets.contains(from) || self.rename_targets.contains(to) {
+                    tags.push(TAG_RENAME_THEN_REMOVE);
+                }
                 let leaves_tree = !under(to, "src") || self.fresh_dirs.iter().any(|d| under(to, d));
                 if self.fresh.iter().any(|f| (f != from && under(f, from)) || (f == from && leaves_tree)) {
                     tags.push(TAG_PATH_VANISHED);
